@@ -1,6 +1,7 @@
 package certs
 
 import (
+	"encoding/pem"
 	"hash"
 	"io"
 	"time"
@@ -228,3 +229,81 @@ func VH_C11_certificate_readfrom_truncated_anywhere() {
 		verifCover("parsed")
 	}
 }
+
+// ---- PEM bundles: every certificate of a bundle is read independently ----
+//
+// encoding/pem is replaced by a fake that maps the k-th marker byte of the
+// stream to the k-th prepared block (the armour itself is not hop code); the
+// block contents are the real encodings of certificates with symbolic fields.
+
+var c18Blocks [][]byte
+
+func c18PemDecode(data []byte) (*pem.Block, []byte) {
+	if len(data) == 0 {
+		return nil, data
+	}
+	k := int(data[0] - 'A')
+	if k < 0 || k >= len(c18Blocks) {
+		return nil, data
+	}
+	typ := PEMTypeHopCertificate
+	if c18Blocks[k] == nil {
+		typ = "SOMETHING ELSE" // a foreign PEM block between certificates
+	}
+	return &pem.Block{Type: typ, Bytes: c18Blocks[k]}, data[1:]
+}
+
+func c18Bundle(prop string, n int) {
+	c18Blocks = nil
+	var want []*Certificate
+	stream := []byte{}
+	for i := 0; i < n; i++ {
+		if i == 1 && verifBool("foreign-block-between") {
+			stream = append(stream, byte('A'+len(c18Blocks)))
+			c18Blocks = append(c18Blocks, nil)
+		}
+		c := c18Cert(verifPick("names", 0, 1, 2), 5)
+		w := &c18Buf{b: make([]byte, 0, 512)}
+		_, err := c.WriteTo(w)
+		verifAssume(err == nil)
+		stream = append(stream, byte('A'+len(c18Blocks)))
+		c18Blocks = append(c18Blocks, w.b)
+		want = append(want, c)
+	}
+	got, err := ReadManyCertificatesPEM(&c18Buf{b: stream})
+	verifAssert(err == nil, prop+": a bundle of well-formed certificates is read")
+	if err != nil {
+		return
+	}
+	verifAssert(len(got) == n, prop+": one certificate per hop PEM block, foreign blocks ignored")
+	if len(got) != n {
+		return
+	}
+	k := 0
+	for i := range got {
+		for c18Blocks[k] == nil {
+			k++
+		}
+		c18CertEq(&got[i], want[i], prop+": certificate read from a bundle equals the one encoded (no state carried over from its neighbours)")
+		verifAssertBytesEq(got[i].raw.Bytes(), c18Blocks[k], prop+": certificate read from a bundle keeps its own signed bytes")
+		k++
+	}
+	verifCover("bundle read")
+}
+
+//verif:prop C18
+//verif:stub encoding/pem.Decode = c18PemDecode
+//verif:replay none
+//verif:bounds bundle of 2 certificates (every fixed field symbolic, 0..2 names with label length in {0,1,5}), optionally a foreign PEM block between them; PEM armour replaced by a fake decoder
+//verif:cover bundle read
+//verif:timeout 600
+func VH_C18_certificates_in_a_bundle_are_read_independently() { c18Bundle("C18", 2) }
+
+//verif:prop C18
+//verif:stub encoding/pem.Decode = c18PemDecode
+//verif:replay none
+//verif:tier thorough
+//verif:bounds as the 2-certificate variant with 3 certificates
+//verif:cover bundle read
+//verif:timeout 3000
+func VH_C18_certificates_in_a_bundle_are_read_independently_3() { c18Bundle("C18", 3) }
